@@ -471,11 +471,12 @@ mod x86_64 {
             SegmentSelector,
         ) {
             let raw = Self::read_raw();
+            // selector arithmetic is modulo 2^16, like the CPU's
             (
-                SegmentSelector(raw.0 + 16),
-                SegmentSelector(raw.0 + 8),
+                SegmentSelector(raw.0.wrapping_add(16)),
+                SegmentSelector(raw.0.wrapping_add(8)),
                 SegmentSelector(raw.1),
-                SegmentSelector(raw.1 + 8),
+                SegmentSelector(raw.1.wrapping_add(8)),
             )
         }
 
@@ -541,7 +542,7 @@ mod x86_64 {
                 return Err(InvalidStarSegmentSelectors::SyscallPrivilegeLevel);
             }
 
-            unsafe { Self::write_raw(ss_sysret.0 - 8, cs_syscall.0) };
+            unsafe { Self::write_raw(ss_sysret.0.wrapping_sub(8), cs_syscall.0) };
 
             Ok(())
         }
